@@ -203,4 +203,51 @@ theorem c25_T3_nested (ops : Ops V) (r : Run V) (hn : Nested ops r) :
         · rw [hv] at hl
           exact ih id v hl
 
+/-! ## Non-vacuity: a subgraph operator capturing an owned / a borrowed input -/
+
+section Examples
+
+/-- node 0: graph input `x`; node 1: a subgraph operator (`If`-like) whose branches capture `x`;
+node 2: its output. -/
+def exSubG : G :=
+  { nodes := [.value,
+              .op { inputs := [], outputs := [some 2], inPlace := [], commutative := false,
+                    capDeps := [0], subgraph := true },
+              .value],
+    captures := [] }
+
+def exSubOps : Ops Nat := { len := fun _ => 1, run := fun _ _ _ _ _ _ => some [5], dirty := fun _ _ v => v }
+
+def exSubRun (owned : Bool) : Run Nat :=
+  { g := exSubG, consts := fun _ => 0,
+    borrowed := fun id => if !owned && id = 0 then some 3 else none,
+    owned := if owned then [(0, 3)] else [],
+    envView := fun _ => none, envTake := fun _ => none }
+
+/-- An owned input whose only user is the subgraph operator is moved into the subgraph's
+environment — out of `temp_values`. -/
+example :
+    (runPlan .code exSubOps (exSubRun true) [1] [2]).recs =
+      [{ step := 0, op := 1, inPlace := false, takes := [{ pos := none, id := 0, loc := .temp 0, val := 3 }] }] := by
+  decide
+
+/-- The same input passed as a view is captured by reference: nothing is handed out. -/
+example : (runPlan .code exSubOps (exSubRun false) [1] [2]).recs.map (·.takes.length) = [0] := by decide
+
+/-- `Nested` is inhabited beyond `top`: the run of the branch sees `x` (its capture node 7
+resolves to the parent's node 0) as a takeable capture, and `c25_T3_nested` applies to it. -/
+example : ∃ r' : Run Nat, Nested exSubOps r' ∧ r'.envTake 7 = some 3 := by
+  let s : StepRec Nat :=
+    { step := 0, op := 1, inPlace := false, takes := [{ pos := none, id := 0, loc := .temp 0, val := 3 }] }
+  refine ⟨{ g := exSubG, consts := fun _ => 0, borrowed := fun _ => none, owned := [],
+            envView := fun _ => none,
+            envTake := childTake (s.takes.filter (fun t => t.pos.isNone))
+              (fun c => if c = 7 then some 0 else none) }, ?_, by decide⟩
+  refine Nested.sub (exSubRun true) _ [1] [2] s _ (Nested.top _ (fun _ => rfl)) ?_ rfl
+  have h : (runPlan .code exSubOps (exSubRun true) [1] [2]).recs = [s] := by decide
+  rw [h]
+  exact List.mem_cons_self
+
+end Examples
+
 end RtenVerif.RunPurity
